@@ -369,16 +369,23 @@ def do_decoder_property_search(req):
                 if not name.endswith('_nocancel'):
                     continue
                 base = name[:-len('_nocancel')]
-                a = window(name, start, end)
-                a['name'] = base
-                for e in a['events']:
-                    e['code_name'] = name
-                b = window(name, start, end)
-                rq = {'kind': 'decoder_pair', 'a': a, 'b': b, 'mode': 'twin'}
-                out = do_decoder_pair(rq)
-                ra, rb = out['a'].get('raised'), out['b'].get('raised')
-                if out['violates'] and not (ra is not None and rb is not None):
-                    return found('%s and %s render the same window differently (beyond the name)' % (base, name), rq, out)
+                call = base.replace('BSC_', '').replace('sys_', '')
+                lookups = [[], [{'code_name': 'VFS_LOOKUP', 'qual': 3, 'data': (bytes(8) + ('/%s/%s' % (call, call)).encode()[:23].ljust(24, b'\0')).hex()}]]
+                for lk in lookups[:1 + (rep < 2)]:
+                    a = window(name, start, end)
+                    a['name'] = base
+                    a['events'][1:1] = lk
+                    for e in a['events']:
+                        if e.get('code_name') == name:
+                            e['code_name'] = name
+                    b = window(name, start, end)
+                    b['events'][1:1] = lk
+                    rq = {'kind': 'decoder_pair', 'a': a, 'b': b, 'mode': 'twin'}
+                    out = do_decoder_pair(rq)
+                    ra, rb = out['a'].get('raised'), out['b'].get('raised')
+                    if out['violates'] and not (ra is not None and rb is not None):
+                        return found('%s and %s render the same window differently (beyond the name): %r / %r' % (
+                            base, name, out.get('compared_a'), out.get('compared_b')), rq, out)
             elif pid == 'C18':
                 if rep > 1:
                     continue
